@@ -112,6 +112,7 @@ type world struct {
 	ckroot *ver
 	rcache map[string]ver
 	evs    []trace.Ev
+	held   map[ver]map[string]*muxdb.Trie // readers that keep their trie objects (dropped when the db is re-opened)
 	st     runStat
 	nextID int
 }
@@ -568,6 +569,7 @@ func (w *world) reopen() {
 			w.reqHF, w.reqDF = w.c.HF, w.c.DF
 		}
 	}
+	w.held = nil
 	w.real("reopen", w.open())
 	w.rcache = map[string]ver{}
 	fac := func(x uint32) int {
@@ -587,7 +589,22 @@ type readRes struct {
 }
 
 // readBlock reads every key of every trie of block b through Get and through the NodeIterator.
-func (w *world) readBlock(db *muxdb.MuxDB, b ver) (res map[string]any) {
+// heldTrie: a reader that keeps its trie object: opened once through the live MuxDB (possibly from the cached live root
+// node that later commits build on) and used again after every later step until the database is re-opened
+func (w *world) heldTrie(b ver, n string) *muxdb.Trie {
+	if w.held == nil {
+		w.held = map[ver]map[string]*muxdb.Trie{}
+	}
+	if w.held[b] == nil {
+		w.held[b] = map[string]*muxdb.Trie{}
+	}
+	if w.held[b][n] == nil {
+		w.held[b][n] = w.db.NewTrie(n, w.root(b, n))
+	}
+	return w.held[b][n]
+}
+
+func (w *world) readBlock(db *muxdb.MuxDB, b ver, hold bool) (res map[string]any) {
 	oks := map[string]any{}
 	kvs := map[string]any{}
 	iterSame := true
@@ -602,6 +619,9 @@ func (w *world) readBlock(db *muxdb.MuxDB, b ver) (res map[string]any) {
 			continue
 		}
 		t := db.NewTrie(n, w.root(b, n))
+		if hold {
+			t = w.heldTrie(b, n)
+		}
 		ok := true
 		pairs := [][]any{}
 		got := map[string]int{}
@@ -618,7 +638,11 @@ func (w *world) readBlock(db *muxdb.MuxDB, b ver) (res map[string]any) {
 		}
 		if ok {
 			// the same root through a fresh iterator over a fresh trie object
-			it := trie.NewIterator(db.NewTrie(n, w.root(b, n)).NodeIterator(nil, 0))
+			t2 := db.NewTrie(n, w.root(b, n))
+			if hold {
+				t2 = t
+			}
+			it := trie.NewIterator(t2.NodeIterator(nil, 0))
 			seen := map[string]int{}
 			for it.Next() {
 				seen[string(it.Key)] = decodeVal(it.Value, it.Meta)
@@ -654,13 +678,13 @@ func (w *world) readBlock(db *muxdb.MuxDB, b ver) (res map[string]any) {
 func (w *world) reads() []any {
 	var out []any
 	for _, b := range w.vers {
-		for _, cold := range []bool{false, true} {
-			db := w.db
+		for _, how := range []string{"live", "cold", "held"} {
+			db, cold := w.db, how == "cold"
 			if cold {
 				db = w.coldDB()
 			}
-			r := w.readBlock(db, b)
-			out = append(out, map[string]any{"b": b.js(), "cold": cold, "ok": r["ok"], "kv": r["kv"], "itersame": r["itersame"]})
+			r := w.readBlock(db, b, how == "held")
+			out = append(out, map[string]any{"b": b.js(), "cold": cold, "how": how, "ok": r["ok"], "kv": r["kv"], "itersame": r["itersame"]})
 			w.st.Reads++
 			failed := false
 			for _, v := range r["ok"].(map[string]any) {
